@@ -9,8 +9,8 @@ def run(tier, seed, verdict):
     quick = tier == "quick"
     variants = ["cfg17r0", "cfg20d1"] if quick else ["cfg17r0", "cfg17r1", "cfg17d0", "cfg17d1",
                                                     "cfg20r0", "cfg20r1", "cfg20d0", "cfg20d1"]
-    npg, budget = (18, 40) if quick else (90, 120)
-    progs = gen_expr.generate(seed + 500, npg, 3, 5) + gen_stream.generate(seed + 500, 6 if quick else 30, 2)
+    npg, budget = (18, 40) if quick else (60, 100)
+    progs = gen_expr.generate(seed + 500, npg, 3, 5) + gen_stream.generate(seed + 500, 6 if quick else 20, 2)
     # C++17 configurations cannot use stop_if_requested(): keep the program set identical across configurations
     progs = [p for p in progs if not gen_expr.has_op(p[1], ("stop_if_requested",))]
     # the same scenario list for every configuration
